@@ -151,12 +151,14 @@ def verify(commit, proof, extra, H, C=SECP, want_internals=False):
     return (h["min_value"], h["max_value"])
 
 
-def prove(value, blind, H, exp, mantissa, min_value, secs, ks, forged, extra=b"", C=SECP, header_override=None, commit=None):
+def prove(value, blind, H, exp, mantissa, min_value, secs, ks, forged, extra=b"", C=SECP, header_override=None, commit=None, digit_x_override=None):
     """Model prover with caller-chosen free values.
       value      : committed value; value - min_value must equal v * 10^exp with v < 2^mantissa (mantissa 0: exact value, v = 0)
       blind      : blinding factor of the commitment (commit = blind*G + value*H unless `commit` is given)
       secs       : blinding factors of the first rings-1 digit commitments (the last is derived)
       ks         : one nonce per ring;  forged: list of npub scalars used at the non-signer positions
+      digit_x_override : {ring index: 32 bytes} written (and hashed) INSTEAD of the x coordinate of that digit commitment
+                   - lets the prover emit a non-canonical x+p encoding that a lenient (mod-p reducing) verifier would accept
     Returns (proof bytes, commit point) or None."""
     n = C.n
     scale = 10 ** max(exp, 0)
@@ -191,6 +193,8 @@ def prove(value, blind, H, exp, mantissa, min_value, secs, ks, forged, extra=b""
         firsts.append(ci)
         if i < rings - 1:
             sp = ser_point(ci, C)
+            if digit_x_override and i in digit_x_override:
+                sp = sp[:1] + bytes(digit_x_override[i])
             signbytes[i >> 3] |= sp[0] << (i & 7)
             mh.update(sp)
             body += sp[1:]
